@@ -189,6 +189,101 @@ func HarnessC06Bindings() {
 	}
 }
 
+// HarnessC06Receivers: a struct-typed place that is immutable - a constant, an element or field of a constant, a value
+// behind an immutable reference parameter / receiver / local, a struct field of immutable reference type - against
+// every way of mutating it, including a call of a method whose receiver is a mutable reference (&'P): each is a
+// compile error; the same statement on a mutable place (let, &'P parameter, &'P local) is accepted.
+func HarnessC06Receivers() {
+	kind := verifrt.Choice("place", 11)
+	forms := []string{"V.inc();", "V.add(2);", "V.X = 1;", "V.X += 1;", "V.X++;", "let p: &'i32 = &'V.X;", "bump(&'V.X);", "let p: &'P = &'V;"}
+	fi := verifrt.Choice("form", len(forms))
+	ctxs := []struct{ pre, post string }{
+		{"", ""},
+		{"if true {", "}"},
+		{"while go { go = false;", "}"},
+		{"match 1 { 1 => {", "} _ => { } }"},
+		{"let lit := fn() {", "};"},
+	}
+	cx := ctxs[verifrt.Choice("context", len(ctxs))]
+	isRef := kind == 1 || kind == 2 || kind == 5 || kind == 6 || kind == 9 || kind == 10
+	verifrt.Assume(!(fi == 7 && isRef)) // &'V of a reference variable is a reference to the reference: another type
+
+	var sb strings.Builder
+	line := 1
+	emit := func(l string) {
+		sb.WriteString(l + "\n")
+		line++
+	}
+	emit("type P struct { .X: i32 };")
+	emit("type W struct { .In: P };")
+	emit("type H struct { .R: &P };")
+	emit("fn (p: &'P) inc() { p.X = p.X + 1; }")
+	emit("fn (p: &'P) add(n: i32) { p.X = p.X + n; }")
+	emit("fn bump(r: &'i32) { }")
+	name := "v"
+	switch kind {
+	case 1:
+		emit("fn t(q: &P) {")
+		name = "q"
+	case 2:
+		emit("fn (q: &P) t() {")
+		name = "q"
+	case 9:
+		emit("fn t(q: &'P) {")
+		name = "q"
+	default:
+		emit("fn t() {")
+	}
+	emit("let go: bool = true;")
+	switch kind {
+	case 0:
+		emit("const v: P = { .X = 1 };")
+	case 3:
+		emit("const cs: [2]P = [{ .X = 1 } as P, { .X = 2 } as P];")
+		name = "cs[0]"
+	case 4:
+		emit("const w: W = { .In = { .X = 1 } as P };")
+		name = "w.In"
+	case 5:
+		emit("let v: P = { .X = 1 };")
+		emit("let r: &P = &v;")
+		name = "r"
+	case 6:
+		emit("let v: P = { .X = 1 };")
+		emit("let h: H = { .R = &v };")
+		name = "h.R"
+	case 7:
+		emit("let v: P = { .X = 1 };")
+	case 8:
+		emit("let ws: [2]P = [{ .X = 1 } as P, { .X = 2 } as P];")
+		name = "ws[1]"
+	case 10:
+		emit("let v: P = { .X = 1 };")
+		emit("let r: &'P = &'v;")
+		name = "r"
+	}
+	if cx.pre != "" {
+		emit(cx.pre)
+	}
+	mutLine := line
+	emit(strings.ReplaceAll(forms[fi], "V", name))
+	if cx.post != "" {
+		emit(cx.post)
+	}
+	emit("}")
+	o := Run(sb.String())
+	if kind <= 6 {
+		verifrt.Assert(!o.Accepted(), "a mutation of an immutable struct place (const, element or field of a const, value behind &) is accepted: "+c06Forms[fi]+" on "+c06Places[kind])
+		verifrt.Assert(o.Accepted() || o.ErrorOnLine(mutLine), "the mutation of an immutable struct place is not the reported error")
+	} else {
+		verifrt.Assert(o.Accepted(), "a mutation of a mutable struct place is rejected: "+c06Forms[fi]+" on "+c06Places[kind]+": "+o.Messages())
+	}
+}
+
+var c06Forms = []string{"&'-receiver method call", "&'-receiver method call with an argument", "field =", "field +=", "field ++", "&' of a field", "field passed to a &' parameter", "&' of the value"}
+var c06Places = []string{"const", "&P parameter", "&P receiver", "element of a const array", "field of a const", "&P local", "struct field of type &P",
+	"let", "element of a let array", "&'P parameter", "&'P local"}
+
 // ---------------------------------------------------------------------------------------------------- C19
 type c19Prog struct {
 	src      string
@@ -546,9 +641,11 @@ func RunProject(paths []string, srcs []string) *Outcome {
 // symbolic, named from module p/app in each syntactic position: accepted iff the name is upper-case.
 func HarnessC12Modules() {
 	n, exported := c12Name("name")
-	kind := verifrt.Choice("kind", 8)
+	kind := verifrt.Choice("kind", 27)
 	lib := "type Pub struct { .V: i32 };\nfn Make() -> Pub { return { .V = 1 } as Pub; }\n"
 	use := ""
+	top := "" // module-level declarations of the importing module
+	structT := "type " + n + " struct { .V: i32 };\nfn MakeN() -> " + n + " { return { .V = 1 } as " + n + "; }\n"
 	switch kind {
 	case 0:
 		lib += "fn " + n + "() -> i32 { return 7; }\n"
@@ -574,15 +671,80 @@ func HarnessC12Modules() {
 	case 7:
 		lib += "fn (p: &Pub) " + n + "() -> i32 { return p.V; }\n"
 		use = "let v := lib::Make(); let x: i32 = v." + n + "();"
+	case 8:
+		// the type only in the annotation of a let (the value comes from an exported function)
+		lib += structT
+		use = "let x: lib::" + n + " = lib::MakeN();"
+	case 9:
+		lib += structT
+		top = "type Wrap struct { .F: lib::" + n + " };\n"
+	case 10:
+		lib += structT
+		top = "type Alias lib::" + n + ";\n"
+	case 11:
+		lib += structT
+		use = "let xs: []lib::" + n + " = [];"
+	case 12:
+		lib += structT
+		use = "let xs: [2]lib::" + n + " = [lib::MakeN(), lib::MakeN()];"
+	case 13:
+		lib += structT
+		top = "fn keep(m: map[i32]lib::" + n + ") { }\n"
+	case 14:
+		lib += structT
+		use = "let x: lib::" + n + "? = none;"
+	case 15:
+		lib += "type " + n + " i32;\n"
+		top = "const K: lib::" + n + " = 3;\n"
+	case 16:
+		lib += "const " + n + ": i32 = 3;\n"
+		use = "let lo: i32 = 0; for i in lo..lib::" + n + " { }"
+	case 17:
+		lib += "const " + n + ": i32 = 3;\n"
+		use = "let hi: i32 = 9; for i in lib::" + n + "..hi { }"
+	case 18:
+		lib += structT
+		top = "type Shape interface { area(q: lib::" + n + ") -> i32 };\n"
+	case 19:
+		lib += structT
+		top = "type Pub2 struct { .V: i32 };\nfn (w: &Pub2) take(q: lib::" + n + ") -> i32 { return q.V; }\n"
+	case 20:
+		lib += structT
+		top = "fn give() -> i32 ! lib::" + n + " { return lib::MakeN(); }\n"
+	case 21:
+		lib += "const " + n + ": i32 = 3;\n"
+		use = "let xs: [4]i32 = [1, 2, 3, 4]; let x: i32 = xs[lib::" + n + "];"
+	case 22:
+		lib += "const " + n + ": i32 = 3;\n"
+		use = "let a: i32 = 3; match a { lib::" + n + " => { } _ => { } }"
+	case 23:
+		lib += "const " + n + ": i32 = 3;\n"
+		use = "let a: i32? = none; let x: i32 = a ?? lib::" + n + ";"
+	case 24:
+		lib += structT
+		top = "fn keep(q: &lib::" + n + ") -> i32 { return q.V; }\n"
+	case 25:
+		lib += "const " + n + ": i32 = 3;\n"
+		use = "let xs: [lib::" + n + "]i32 = [1, 2, 3];"
+	case 26:
+		lib += structT
+		use = "let f: fn(q: lib::" + n + ") -> i32 = fn(q: lib::" + n + ") -> i32 { return q.V; };"
 	}
-	app := "import \"p/lib\";\nfn main() {\n" + use + "\n}\n"
+	app := "import \"p/lib\";\n" + top + "fn main() {\n" + use + "\n}\n"
 	o := RunProject([]string{"p/lib", "p/app"}, []string{lib, app})
 	if exported {
 		verifrt.Assert(o.Accepted(), "an exported (upper-case) symbol of another module is rejected: "+o.Messages())
 	} else if kind != 7 {
-		verifrt.Assert(!o.Accepted(), "a private (lower-case) symbol of another module is named and the program is accepted")
+		verifrt.Assert(!o.Accepted(), "a private (lower-case) symbol of another module is named and the program is accepted (position "+c12Positions[kind]+")")
 	}
 }
+
+var c12Positions = []string{"call", "constant in an initialiser", "variable in an initialiser", "type in annotation and cast", "type in a function-literal signature",
+	"call in a condition inside a loop", "nested call argument", "method through a value", "type in a let annotation only", "type of a struct field",
+	"aliased type", "element type of a dynamic array", "element type of a fixed array", "value type of a map parameter", "optional type",
+	"type of a module-level constant", "upper bound of a range", "lower bound of a range", "type in an interface method signature",
+	"type in a method signature", "value type of a result", "array index", "match pattern", "default of ??",
+	"referenced type of a parameter", "length of a fixed array type", "function type in an annotation"}
 
 // ---------------------------------------------------------------------------------------------------- C03
 type c03Rule struct {
